@@ -49,7 +49,7 @@ def _summ(r: dc.Result):
             parallel=_parallel(s), self_ext=sum((not t.internal) and t.src == t.tgt for t in s.trans),
             named=sum(bool(st.name) for st in s.states), valued=sum(st.value is not None for st in s.states),
             custom_style=int(s.fill is not None or s.pen is not None),
-            model_cbs=len(s.model_methods), via_graph=int(s.via == "graph" and s.fill is None and s.pen is None),
+            model_cbs=len(s.model_methods), subclass=int(s.subclass), via_graph=int(s.via == "graph" and s.fill is None and s.pen is None),
         ),
     )
 
@@ -65,6 +65,44 @@ def _parallel(s):
 def _chunk(args):
     seed, lo, hi = args
     return [_summ(r) for r in dc.evaluate([_gen(seed, i) for i in range(lo, hi)])]
+
+
+def _line_coverage(seed):
+    """which lines of the anchored functions the generated machines execute (measured on 60 machines)"""
+    import sys
+    from statemachine.contrib import diagram as D
+    fn = D.__file__
+    hit = set()
+
+    def local(frame, ev, arg):
+        if ev == "line":
+            hit.add(frame.f_lineno)
+        return local
+
+    def tr(frame, ev, arg):
+        if frame.f_code.co_filename != fn:
+            return None
+        hit.add(frame.f_lineno)
+        return local
+
+    def lines_of(code):
+        out = {l for _, _, l in code.co_lines() if l is not None and l != code.co_firstlineno}
+        for c in code.co_consts:
+            if hasattr(c, "co_lines"):
+                out |= lines_of(c)
+        return out
+
+    want = set()
+    for name in ("get_graph", "_get_graph", "_initial_node", "_initial_edge", "_actions_getter",
+                 "_state_actions", "_state_as_node", "_transition_as_edge"):
+        want |= lines_of(getattr(D.DotGraphMachine, name).__code__)
+    sys.settrace(tr)
+    try:
+        dc.evaluate([dg.gen_scenario(random.Random(f"{seed}:{TAG}:cov:{i}"), f"{TAG}-cov-{i}") for i in range(60)])
+    finally:
+        sys.settrace(None)
+    missed = sorted(want - hit)
+    return dict(lines=len(want), executed=len(want & hit), missed=missed)
 
 
 # ----------------------------------------------------------------------------- reporting
@@ -201,7 +239,8 @@ def run(ctx):
         "transition; distinct = distinct (hash of the machine text, subject)")
     stats = {}
     _probes(ctx, stats)
-    target = 700 if ctx.tier == "quick" else 24000
+    stats["anchored_line_coverage_diagram_py"] = _line_coverage(ctx.seed)
+    target = 800 if ctx.tier == "quick" else 80000
     nproc = 1 if ctx.tier == "quick" else min(16, os.cpu_count() or 1)
     chunk = 100 if ctx.tier == "quick" else 250
     summaries, bad = [], []
